@@ -267,3 +267,7 @@ for o in (0, 3, 6, 7, 8):
        kind='config-bounded', bound=RGL % o + '; the freed block is held by this thread', assumes=RGL_ASSUMES, timeout=2400, cover=False)
 ob('lower::c03_partial_put_peer_stalled', ['C03'], ['lower::Lower::partial_put_huge', 'util::spin_wait'], kind='config-bounded',
    bound='the intermediate state of a concurrent split: marker set, bitfield all ones (peer stalled); any frame of the huge frame', cover=False)
+for o, h in ((0, 1), (3, 2), (7, 0), (8, 3)):
+    ob(f'lower::rg_lower_get_o{o}_h{h}', ['C01', 'C03', 'C05', 'C21'], ['lower::Lower::get'], tier='quick' if o == 3 else 'thorough', kind='config-bounded',
+       bound=f'1 tree (4 huge frames), any bit states / entries, any bits already owned anywhere in the tree, order {o}, hint in huge frame {h}; environment on all rows and all four counter entries',
+       assumes=RGL_ASSUMES + ['bitfield::Bitfield::set_first_zeros by its rely/guarantee contract (rg_set_first_zeros_o*)'], timeout=2400, cover=False)
